@@ -3,6 +3,7 @@ package checks
 import (
 	"fmt"
 	"sync/atomic"
+	"time"
 
 	"github.com/vx-labs/mqtt-protocol/packet"
 	"github.com/vx-labs/wasp/v4/wasp/distributed"
@@ -83,6 +84,8 @@ func runC09(c *fw.Ctx) {
 		return
 	}
 	seqs := 0
+	var lastSeq atomic.Value
+	lastSeq.Store("")
 	var rec func(prefix []int)
 	rec = func(prefix []int) {
 		if len(prefix) > 0 {
@@ -91,8 +94,9 @@ func runC09(c *fw.Ctx) {
 			ok := true
 			for _, oi := range prefix {
 				before := a.Canon()
-				alpha[oi].do(a.S)
 				names = append(names, alpha[oi].name)
+				lastSeq.Store(fmt.Sprint(names))
+				alpha[oi].do(a.S)
 				bs := a.Drain()
 				for _, bc := range bs {
 					b.Deliver(bc)
@@ -116,7 +120,9 @@ func runC09(c *fw.Ctx) {
 			rec(append(append([]int{}, prefix...), i))
 		}
 	}
-	rec(nil)
+	if !c.Guard("mutator-sequences", time.Duration(c.Pick(120, 900))*time.Second, func() string { return lastSeq.Load().(string) }, func() { rec(nil) }) {
+		return
+	}
 	c.CaseBulk(seqs, seqs-len(alpha))
 	c.Exhaustive(false)
 	c.Extra("exhaustive_part", fmt.Sprintf("part A: all %d call sequences of length <=%d over the 15-call alphabet", seqs, maxL))
